@@ -44,8 +44,7 @@ func MakeUnicastUDPTransport(
 	// Construct transport
 	t := new(UnicastUDPTransport)
 	t.makeTransportBase(remoteURI, localURI, persistency, defn.NonLocal, defn.PointToPoint, defn.MaxNDNPacketSize)
-	t.expirationTime = new(time.Time)
-	*t.expirationTime = time.Now().Add(udpLifetime)
+	t.setExpirationTime(time.Now().Add(udpLifetime))
 
 	// Set scope
 	ip := net.ParseIP(remoteURI.Path())
@@ -121,7 +120,7 @@ func (t *UnicastUDPTransport) sendFrame(frame []byte) {
 	}
 
 	t.nOutBytes += uint64(len(frame))
-	*t.expirationTime = time.Now().Add(udpLifetime)
+	t.setExpirationTime(time.Now().Add(udpLifetime))
 }
 
 func (t *UnicastUDPTransport) runReceive() {
@@ -129,7 +128,7 @@ func (t *UnicastUDPTransport) runReceive() {
 
 	err := readTlvDatagrams(t.conn, func(b []byte) {
 		t.nInBytes += uint64(len(b))
-		*t.expirationTime = time.Now().Add(udpLifetime)
+		t.setExpirationTime(time.Now().Add(udpLifetime))
 		t.linkService.handleIncomingFrame(b)
 	}, func(err error) bool {
 		// Ignore since UDP is a connectionless protocol
